@@ -149,8 +149,8 @@ Definition act_body (a : action) (sa p : Z) (t : trace) : trace :=
   | _ => t
   end.
 
-(* the result handler combines the partition results as they arrive; state = (accumulator of reduce, number of
-   calls of reduce's function on two plain partition results) *)
+(* combining the partition results, in partition order; state = (accumulator of reduce, number of calls of
+   reduce's function on a plain (untagged) partial result) *)
 Definition comb_step (a : action) (sa p : Z) (st : option Z * Z) (o : list Z) : list event * (option Z * Z) :=
   match a with
   | AFold z op => ([(sa, -1, p, fold_left op o z)], st)
@@ -164,7 +164,7 @@ Definition comb_step (a : action) (sa p : Z) (st : option Z * Z) (o : list Z) : 
           | None => ([], (Some r, snd st))
           | Some acc =>
               match rest with
-              | [] => ([(sa, p, 0, a0)], (Some (op acc r), snd st))      (* the result IS the tagged element *)
+              | [] => ([(sa, p, 0, a0)], (Some (op acc r), snd st))      (* the partial result IS the tagged element *)
               | _ => ([(sa, -1, snd st, r)], (Some (op acc r), snd st + 1))
               end
           end
@@ -172,17 +172,33 @@ Definition comb_step (a : action) (sa p : Z) (st : option Z * Z) (o : list Z) : 
   | _ => ([], st)
   end.
 
+(* reduce() collects the partial results of all partitions first and combines them afterwards (each task returns
+   [] or [value]); fold/aggregate combine inside the result handler as the partial results arrive *)
+Definition deferred (a : action) : bool := match a with AReduce _ => true | _ => false end.
+
 Fixpoint job_loop (a : action) (sa : Z) (st : option Z * Z) (ts : list (Z * ptrace)) : list event :=
   match ts with
   | [] => []
   | (p, pt) :: rest =>
       let b := act_body a sa p (body pt) in
       let ce := comb_step a sa p st (outs b) in
-      (created pt ++ events b) ++ fst ce ++ job_loop a sa (snd ce) rest
+      (created pt ++ events b) ++ (if deferred a then [] else fst ce) ++ job_loop a sa (snd ce) rest
+  end.
+
+(* the combine calls alone, over the outputs of all partitions *)
+Fixpoint comb_loop (a : action) (sa : Z) (st : option Z * Z) (os : list (Z * list Z)) : list event :=
+  match os with
+  | [] => []
+  | (p, o) :: rest =>
+      let ce := comb_step a sa p st o in
+      fst ce ++ comb_loop a sa (snd ce) rest
   end.
 
 Definition job_log (a : action) (stages : list stage) (parts : list (list Z)) : list event :=
-  job_loop a (Z.of_nat (length stages) + 1) (None, 0) (tasks stages parts).
+  let sa := Z.of_nat (length stages) + 1 in
+  let ts := tasks stages parts in
+  job_loop a sa (None, 0) ts ++
+  (if deferred a then comb_loop a sa (None, 0) (map (fun t => (fst t, all_outs (snd t))) ts) else []).
 
 (* ---- plain-list semantics (what the pipeline computes, independent of evaluation order) ------------------- *)
 Definition sem_stage (st : stage) (xs : list Z) : list Z :=
